@@ -27,13 +27,13 @@ for f in kf:
 put("findings", "\n".join(rows))
 
 rows = ["| id | property | what the change does / needs | detected by |", "|---|---|---|---|"]
-for d in sorted(glob.glob(os.path.join(R, "seeded", "*"))):
+for d in sorted(glob.glob(os.path.join(R, "seeded", "*", ""))):
     m = json.load(open(os.path.join(d, "meta.json")))
     summ = (m.get("summary") or "").replace("\n", " ").replace("|", "\\|")
     if len(summ) > 260: summ = summ[:257] + "..."
     needs = (m.get("needs") or "").replace("\n", " ").replace("|", "\\|")
     if len(needs) > 200: needs = needs[:197] + "..."
-    rows.append("| %s | %s | %s **Needs:** %s | %s |" % (os.path.basename(d), m.get("property"), summ, needs, (m.get("detected_by") or "").replace("|", "\\|")))
+    rows.append("| %s | %s | %s **Needs:** %s | %s |" % (os.path.basename(d.rstrip("/")), m.get("property"), summ, needs, (m.get("detected_by") or "").replace("|", "\\|")))
 put("seeded", "\n".join(rows))
 open(os.path.join(R, "DESIGN.md"), "w").write(s)
 print("tables written: %d hooks, %d findings, %d seeded" % (len(hooks), len(kf), len(rows) - 2))
